@@ -33,6 +33,15 @@ impl Out {
     pub fn stat_n(&mut self, k: &str, n: u64) {
         *self.stats.entry(k.to_string()).or_insert(0) += n;
     }
+    /// keep only the case `id` (used to replay one generated case of an oracle-only stream)
+    pub fn restrict(&mut self, id: &str) {
+        let want = format!("case {id}");
+        let start = match self.ops.iter().position(|o| *o == want) { Some(s) => s, None => { self.ops.clear(); self.imp.clear(); self.oracle.clear(); return; } };
+        let end = self.ops[start + 1..].iter().position(|o| o.starts_with("case ")).map(|e| start + 1 + e).unwrap_or(self.ops.len());
+        self.ops = self.ops[start..end].to_vec();
+        self.imp = self.imp[start..end].to_vec();
+        self.oracle = self.oracle.iter().filter(|o| o.0 >= start && o.0 < end).map(|o| (o.0 - start, o.1.clone(), o.2.clone(), o.3.clone())).collect();
+    }
     pub fn write(&self, dir: &str, suite: &str) -> std::io::Result<()> {
         std::fs::create_dir_all(dir)?;
         std::fs::write(format!("{dir}/{suite}.ops"), self.ops.join("\n") + "\n")?;
